@@ -43,4 +43,35 @@ func init() {
 		c, v := cur128(x, a[0]), cur128(x, a[1])
 		return ts.Ite(ts.Eq(c, v), ts.ConstU(64, 0), ts.Ite(ts.ULt(c, v), ts.ConstI(64, -1), ts.ConstU(64, 1)))
 	}
+	// cur_lift_mul: Mul64WithOverflow / quoRem64 as single wide operations (their
+	// limb code against this meaning: C15 for Mul64; quoRem64 is the schoolbook
+	// two-step division by a 64-bit divisor, stated as an assumption where used)
+	intrinsics[T+"Mul64WithOverflow"] = func(x *Exec, fv FuncV, a []Value) Value {
+		if x.cfg.Params["cur_lift_mul"] != 1 {
+			return x.callBody(fv, a)
+		}
+		ts := x.ts
+		c, v := cur128(x, a[0]), a[1].(*Term)
+		var p *Term
+		if x.cfg.Params["mul_uf"] == 1 && !c.IsConst() && !v.IsConst() {
+			// symbolic x symbolic: an uninterpreted 192-bit product (the identities
+			// checked with it do not depend on its value)
+			p = ts.UF("curmul", 192, c, v)
+		} else {
+			p = ts.Mul(ts.ZExt(c, 192), ts.ZExt(v, 192))
+		}
+		return Tuple{curAgg(x, ts.Extract(p, 127, 0)), ts.Not(ts.Eq(ts.Extract(p, 191, 128), ts.ConstU(64, 0)))}
+	}
+	intrinsics[T+"quoRem64"] = func(x *Exec, fv FuncV, a []Value) Value {
+		if x.cfg.Params["cur_lift_mul"] != 1 {
+			return x.callBody(fv, a)
+		}
+		ts := x.ts
+		v := a[1].(*Term)
+		if x.branch(ts.Eq(v, ts.ConstU(64, 0))) {
+			x.goPanic("div-zero", "integer divide by zero")
+		}
+		c, d := cur128(x, a[0]), ts.ZExt(v, 128)
+		return Tuple{curAgg(x, ts.UDiv(c, d)), ts.Extract(ts.URem(c, d), 63, 0)}
+	}
 }
